@@ -145,8 +145,17 @@ func (rs *reqState) decodeResponse(resp Response) *clientView {
 				httpCodec = "proto"
 			case ct == "" && len(body) == 0:
 				httpCodec = sp.Accept // nothing was written at all
+				if sp.Accept == "other" {
+					httpCodec = sp.Codec
+				}
 			default:
 				cv.Err = fmt.Errorf("the request asked for %s; the response is labelled Content-Type %q", sp.Accept, ct)
+				return cv
+			}
+			if sp.Accept == "other" && httpCodec != sp.Codec {
+				// nothing the client accepts is on offer: the representation of
+				// the response is the request's own, a function of this request
+				cv.Err = fmt.Errorf("the request came as %s with an Accept header that matches nothing on offer (text/html); the response is labelled Content-Type %q - not this request's representation", sp.Codec, resp.Header.Get("Content-Type"))
 				return cv
 			}
 		}
